@@ -697,6 +697,11 @@ pub struct FsmCfg {
     /// applied as ordinary events) and the clock can also move in 7 s steps, so that what a
     /// segment does to the 2MSL timer in the middle of TIME-WAIT becomes visible
     pub start_tw: bool,
+    /// the interface owns a second address of the same subnet; the connection lives on the FIRST
+    /// one, and the alphabet also has segments with the connection's ports and acceptable
+    /// sequence numbers addressed to the SECOND one: they belong to no connection of this
+    /// socket and must not move it
+    pub stray_to_second: bool,
 }
 
 #[derive(Clone, Debug, PartialEq)]
@@ -725,6 +730,8 @@ pub enum FsmEv {
     Plus10s,
     /// the clock advances by 7 s, then one egress pass (only with `start_tw`)
     Plus7s,
+    /// a segment like `Seg`, but addressed to the interface's second address
+    StraySeg { flags: u8, seq: u32, ack: Option<u32>, len: usize },
     /// the clock advances by 1 s and nobody polls (only in `rst_mode`)
     Sleep1s,
     /// like ToPollAt, but the device refuses every frame during that poll (a retransmission
@@ -972,7 +979,7 @@ impl Harness for Fsm {
         if cfg.rst_mode {
             w.sock().set_ack_delay(Some(smoltcp::time::Duration::from_millis(10)));
         }
-        if cfg.second_addr {
+        if cfg.second_addr || cfg.stray_to_second {
             w.iface.update_ip_addrs(|a| {
                 a.push(IpCidr::new(IpAddress::Ipv4(Ipv4Address::new(LOCAL2[0], LOCAL2[1], LOCAL2[2], LOCAL2[3])), 24)).unwrap();
             });
@@ -1097,6 +1104,14 @@ impl Harness for Fsm {
                 }
             }
         }
+        if self.cfg.stray_to_second && self.obs.iss.is_some() && !matches!(self.w.state(), State::Listen) {
+            // the most consequential segments, at the exactly expected sequence number
+            let a = acks.last().copied();
+            for fl in [wc::TCP_FIN, wc::TCP_RST, 0] {
+                v.push((FsmEv::StraySeg { flags: fl, seq: n, ack: a, len: if fl == 0 { 1 } else { 0 } }, 0));
+            }
+            v.push((FsmEv::StraySeg { flags: wc::TCP_RST, seq: n, ack: None, len: 0 }, 0));
+        }
         v
     }
     fn apply(&mut self, ev: &FsmEv, out: &mut Vec<Viol>) {
@@ -1170,6 +1185,20 @@ impl Harness for Fsm {
                 self.w.now += 10_000_000;
                 self.egress_step();
             }
+            FsmEv::StraySeg { flags, seq, ack, len } => {
+                let payload = vec![0x5a; *len];
+                let seg = build_seg_to(LOCAL2, *seq, *ack, *flags, self.cfg.peer_win, &[], &payload);
+                let pre = self.w.state();
+                let _ = self.w.ingress_single(seg);
+                let mid = self.w.state();
+                if mid != pre {
+                    self.pending.push(Viol::new(
+                        format!("C17/illegal-transition/segment-for-another-address/{}->{}", st_name(pre), st_name(mid)),
+                        format!("a segment addressed to the interface's other address {:?} moved the socket {} -> {}: {:?}", LOCAL2, pre, mid, ev),
+                    ));
+                }
+                self.egress_step();
+            }
             FsmEv::Plus7s => {
                 self.w.now += 7_000_000;
                 self.egress_step();
@@ -1201,22 +1230,24 @@ impl Harness for Fsm {
 pub fn fsm_configs(tier: Tier) -> Vec<(FsmCfg, usize)> {
     match tier {
         Tier::Quick => vec![
-            (FsmCfg { name: "full", peer_isn: 0xffff_fff0, rx: 8, reduced: false, peer_win: 500, send_len: 1, rst_mode: false, second_addr: false, fin_win: None, start_tw: false }, 5),
-            (FsmCfg { name: "reduced", peer_isn: 5000, rx: 8, reduced: true, peer_win: 500, send_len: 1, rst_mode: false, second_addr: false, fin_win: None, start_tw: false }, 7),
-            (FsmCfg { name: "reduced-win1-send3", peer_isn: 5000, rx: 8, reduced: true, peer_win: 1, send_len: 3, rst_mode: false, second_addr: false, fin_win: None, start_tw: false }, 6),
-            (FsmCfg { name: "rst-window-zwp", peer_isn: 5000, rx: 8, reduced: true, peer_win: 0, send_len: 3, rst_mode: true, second_addr: false, fin_win: None, start_tw: false }, 7),
-            (FsmCfg { name: "reduced-second-address", peer_isn: 5000, rx: 8, reduced: true, peer_win: 500, send_len: 1, rst_mode: false, second_addr: true, fin_win: None, start_tw: false }, 5),
-            (FsmCfg { name: "reduced-fin-window-0", peer_isn: 5000, rx: 8, reduced: true, peer_win: 500, send_len: 1, rst_mode: false, second_addr: false, fin_win: Some(0), start_tw: false }, 7),
-            (FsmCfg { name: "from-time-wait", peer_isn: 0xffff_fff0, rx: 8, reduced: false, peer_win: 500, send_len: 1, rst_mode: false, second_addr: false, fin_win: None, start_tw: true }, 3),
+            (FsmCfg { name: "full", peer_isn: 0xffff_fff0, rx: 8, reduced: false, peer_win: 500, send_len: 1, rst_mode: false, second_addr: false, fin_win: None, start_tw: false, stray_to_second: false }, 5),
+            (FsmCfg { name: "reduced", peer_isn: 5000, rx: 8, reduced: true, peer_win: 500, send_len: 1, rst_mode: false, second_addr: false, fin_win: None, start_tw: false, stray_to_second: false }, 7),
+            (FsmCfg { name: "reduced-win1-send3", peer_isn: 5000, rx: 8, reduced: true, peer_win: 1, send_len: 3, rst_mode: false, second_addr: false, fin_win: None, start_tw: false, stray_to_second: false }, 6),
+            (FsmCfg { name: "rst-window-zwp", peer_isn: 5000, rx: 8, reduced: true, peer_win: 0, send_len: 3, rst_mode: true, second_addr: false, fin_win: None, start_tw: false, stray_to_second: false }, 7),
+            (FsmCfg { name: "reduced-second-address", peer_isn: 5000, rx: 8, reduced: true, peer_win: 500, send_len: 1, rst_mode: false, second_addr: true, fin_win: None, start_tw: false, stray_to_second: false }, 5),
+            (FsmCfg { name: "reduced-fin-window-0", peer_isn: 5000, rx: 8, reduced: true, peer_win: 500, send_len: 1, rst_mode: false, second_addr: false, fin_win: Some(0), start_tw: false, stray_to_second: false }, 7),
+            (FsmCfg { name: "from-time-wait", peer_isn: 0xffff_fff0, rx: 8, reduced: false, peer_win: 500, send_len: 1, rst_mode: false, second_addr: false, fin_win: None, start_tw: true, stray_to_second: false }, 3),
+            (FsmCfg { name: "reduced-stray-to-second-address", peer_isn: 5000, rx: 8, reduced: true, peer_win: 500, send_len: 1, rst_mode: false, second_addr: false, fin_win: None, start_tw: false, stray_to_second: true }, 5),
         ],
         Tier::Thorough => vec![
-            (FsmCfg { name: "full", peer_isn: 0xffff_fff0, rx: 8, reduced: false, peer_win: 500, send_len: 1, rst_mode: false, second_addr: false, fin_win: None, start_tw: false }, 5),
-            (FsmCfg { name: "reduced", peer_isn: 5000, rx: 8, reduced: true, peer_win: 500, send_len: 1, rst_mode: false, second_addr: false, fin_win: None, start_tw: false }, 8),
-            (FsmCfg { name: "reduced-win1-send3", peer_isn: 5000, rx: 8, reduced: true, peer_win: 1, send_len: 3, rst_mode: false, second_addr: false, fin_win: None, start_tw: false }, 8),
-            (FsmCfg { name: "rst-window-zwp", peer_isn: 5000, rx: 8, reduced: true, peer_win: 0, send_len: 3, rst_mode: true, second_addr: false, fin_win: None, start_tw: false }, 9),
-            (FsmCfg { name: "reduced-second-address", peer_isn: 5000, rx: 8, reduced: true, peer_win: 500, send_len: 1, rst_mode: false, second_addr: true, fin_win: None, start_tw: false }, 7),
-            (FsmCfg { name: "reduced-fin-window-0", peer_isn: 5000, rx: 8, reduced: true, peer_win: 500, send_len: 1, rst_mode: false, second_addr: false, fin_win: Some(0), start_tw: false }, 8),
-            (FsmCfg { name: "from-time-wait", peer_isn: 0xffff_fff0, rx: 8, reduced: false, peer_win: 500, send_len: 1, rst_mode: false, second_addr: false, fin_win: None, start_tw: true }, 4),
+            (FsmCfg { name: "full", peer_isn: 0xffff_fff0, rx: 8, reduced: false, peer_win: 500, send_len: 1, rst_mode: false, second_addr: false, fin_win: None, start_tw: false, stray_to_second: false }, 5),
+            (FsmCfg { name: "reduced", peer_isn: 5000, rx: 8, reduced: true, peer_win: 500, send_len: 1, rst_mode: false, second_addr: false, fin_win: None, start_tw: false, stray_to_second: false }, 8),
+            (FsmCfg { name: "reduced-win1-send3", peer_isn: 5000, rx: 8, reduced: true, peer_win: 1, send_len: 3, rst_mode: false, second_addr: false, fin_win: None, start_tw: false, stray_to_second: false }, 8),
+            (FsmCfg { name: "rst-window-zwp", peer_isn: 5000, rx: 8, reduced: true, peer_win: 0, send_len: 3, rst_mode: true, second_addr: false, fin_win: None, start_tw: false, stray_to_second: false }, 9),
+            (FsmCfg { name: "reduced-second-address", peer_isn: 5000, rx: 8, reduced: true, peer_win: 500, send_len: 1, rst_mode: false, second_addr: true, fin_win: None, start_tw: false, stray_to_second: false }, 7),
+            (FsmCfg { name: "reduced-fin-window-0", peer_isn: 5000, rx: 8, reduced: true, peer_win: 500, send_len: 1, rst_mode: false, second_addr: false, fin_win: Some(0), start_tw: false, stray_to_second: false }, 8),
+            (FsmCfg { name: "from-time-wait", peer_isn: 0xffff_fff0, rx: 8, reduced: false, peer_win: 500, send_len: 1, rst_mode: false, second_addr: false, fin_win: None, start_tw: true, stray_to_second: false }, 4),
+            (FsmCfg { name: "reduced-stray-to-second-address", peer_isn: 5000, rx: 8, reduced: true, peer_win: 500, send_len: 1, rst_mode: false, second_addr: false, fin_win: None, start_tw: false, stray_to_second: true }, 7),
         ],
     }
 }
